@@ -43,7 +43,12 @@ func (sc *sliceContainers) Put(key uint64, c *Container) {
 	} else {
 		sc.containers[i] = c
 	}
-
+	// Keep the lookaside in step: a Put that follows a Get/GetOrCreate of the
+	// same key (copy-on-write of a frozen container, array/bitmap/run
+	// conversion) must not leave the replaced container in the lookaside.
+	if key == sc.lastKey {
+		sc.lastContainer = c
+	}
 }
 
 func (sc *sliceContainers) PutContainerValues(key uint64, typ byte, n int, mapped bool) {
